@@ -20,7 +20,11 @@ def dir_decoders(ctx):
 
 
 def dir_encoders(ctx):
-    return [f for f in ctx.user_fns() if f["path"] not in ctx.inlinable and (ctx.calls_inl(f) & set(VWRITE)) and "directory::Directory" in (f.get("self_ty") or "")]
+    """the directory serialiser: the function that (itself or through helpers evaluated in place) emits the varints, and is either one of
+    Directory's own functions or a function over the entry slice (`&[Entry]`), wherever it lives and whatever it is called"""
+    def over_entries(f):
+        return "directory::Directory" in (f.get("self_ty") or "") or any("[directory::Entry]" in (p.get("ty") or "") for p in f["params"])
+    return [f for f in ctx.user_fns() if f["path"] not in ctx.inlinable and (ctx.calls_inl(f) & set(VWRITE)) and over_entries(f)]
 
 
 def full_ok_paths(fa):
@@ -306,6 +310,13 @@ def _check_offrule_reader(fn, fa, p, rd):
     raw0 = ("eq", val, 0) in facts
     prev = _previous_entry(fa, p, cur, lid, facts)
     atoms = [k for k in a[1]]
+    if prev is not None and prev[0] == "prevend":
+        uses_end = a[0] == 0 and a[1] == {("proj", prev[1], prev[2].rpartition("::")[0].rpartition("::")[2] + "::" + prev[2].rpartition("::")[2] + ".0"): 1}
+        if uses_end:
+            obs.append(Ob("R-OFFRULE", fn, "decode: contiguous arm = prev.offset + prev.length, taken only for index > 0 and raw value 0", raw0,
+                          "stored %s (the carried end of the previous entry); raw == 0 established: %s" % (aff_str(a), raw0), e.loc()))
+            return obs, "contig"
+        prev = None
     if prev is not None and prev[0] != "prevpair":
         prev = _strip_views(prev)
     uses_prev = prev is not None and a[0] == 0 and a[1] == {("f", prev, "offset"): 1, ("f", prev, "length"): 1}
@@ -327,6 +338,43 @@ def _check_offrule_reader(fn, fa, p, rd):
     return obs, None
 
 
+def _prev_end_carrier(fa, P, vctor, lid):
+    """a loop-carried value of a local enum that remembers where the previous entry's data ends: it enters the loop as a payload-free variant
+    ("no previous entry"), and every value it is given inside is `checked(offset stored into the current entry + its length)` wrapped into the
+    variant `vctor` (directly, or by `map_or(<another payload-free variant>, vctor)` for the overflowing case).  Then `P.vctor.0`, where P is
+    known to be that variant, is previous.offset + previous.length."""
+    enum = vctor.rpartition("::")[0]
+    init = [unmut(x) for x in fa.havoc_init.get(P, ())]
+    def unit_variant(t):
+        return isinstance(t, tuple) and t and t[0] == "call" and t[1].startswith(enum + "::") and t[1] != vctor and not t[2]
+    if len(init) != 1 or not unit_variant(init[0]):
+        return False
+    nm = P[1].rpartition(":")[2]
+    given = []
+    for q in fa.paths:
+        for ev in q.events:
+            if not (ev.kind == "assign" and ev.d.get("name") == nm and ev.loops and ev.loops[-1] == lid):
+                continue
+            v = unmut(ev.d["value"])
+            given.append(v)
+            if is_call_to(v, lambda s_: s_.endswith("::map_or")) and len(v[2]) == 3 and unit_variant(unmut(v[2][1])) and unmut(v[2][2])[:3] == ("call", vctor, ()):
+                S = v[2][0]
+            elif is_call_to(v, lambda s_: s_ == vctor) and len(v[2]) == 1:
+                S = v[2][0]
+            else:
+                return False
+            offs = [(unmut(x.d["place"])[1], unmut(x.d["value"])) for x in q.events if x.kind == "assign" and x.seq < ev.seq and x.d.get("place") is not None and
+                    unmut(x.d["place"])[0] == "f" and unmut(x.d["place"])[2] == "offset" and x.loops and x.loops[-1] == lid]
+            if len(offs) != 1:
+                return False
+            cur_q, stored_q = offs[0]
+            want = aff_sub(affine(unmut(S)), affine(stored_q))
+            if not aff_eq(want, affine(("f", cur_q, "length"))):
+                return False
+    srcs = [unmut(x) for x in fa.havoc_src.get(P, ())]
+    return bool(given) and all(x in given or x in init for x in srcs)
+
+
 def _previous_entry(fa, p, cur, lid, facts):
     """the term denoting the entry before `cur`, if this path has established that one exists:
        entries[i − 1] with i ≠ 0, or a loop-carried Option<Entry> known to be Some whose only non-None source is the entry just completed"""
@@ -340,6 +388,10 @@ def _previous_entry(fa, p, cur, lid, facts):
             if f[0] == "variant" and f[2] == "core::option::Option::Some" and f[3] is True and _strip_views(f[1]) == want:
                 return want
         return None
+    for f in facts:
+        if f[0] == "variant" and f[3] is True and not f[2].startswith("core::") and unmut(f[1])[0] == "v" and str(unmut(f[1])[1]).startswith("loop%s:" % lid):
+            if _prev_end_carrier(fa, unmut(f[1]), f[2], lid):
+                return ("prevend", unmut(f[1]), f[2])
     for f in facts:
         if f[0] == "variant" and f[2] == "core::option::Option::Some" and f[3] is True:
             cand = f[1]
@@ -433,6 +485,27 @@ def _complement_of_contig(fa, p, rd, e, val, cur, lid):
     for d in p.decisions(e.seq):
         if d.seq > rd.seq and d.d["how"] == "match" and d.d.get("pat") is not None and d.d["pat"]["k"] in ("Wild", "Bind"):
             arms = (d.node or {}).get("arms") or []
+            if len(arms) > 2 and d.d.get("outcome") == len(arms) - 1:
+                # several arms before the catch-all: each is the contiguous case (and establishes it) or a refusal (every path through it is an
+                # error exit; what may be refused is R-COLS' business); at least one is the contiguous case
+                contig_seen, all_ok = False, True
+                for i_, arm_ in enumerate(arms[:-1]):
+                    class _D:
+                        pass
+                    o = _D()
+                    o.d = dict(d.d)
+                    o.d["outcome"] = i_
+                    o.d["pat"] = arm_["pat"]
+                    o.node = d.node
+                    fs = decision_facts(o)
+                    if arm_.get("guard") is None and ("eq", val, 0) in fs and _previous_entry(fa, p, cur, lid, fs) is not None:
+                        contig_seen = True
+                        continue
+                    exits = [q.exit for q in fa.paths for x in q.events if x.kind == "decide" and x.d.get("how") == "match" and (x.node or {}).get("id") == (d.node or {}).get("id") and x.d.get("outcome") == i_]
+                    if not (exits and all(x == "err" for x in exits)):
+                        all_ok = False
+                if contig_seen and all_ok:
+                    return True
             if len(arms) == 2:
                 if arms[0].get("guard") is not None:
                     return True
